@@ -25,7 +25,7 @@ NOT_END = ["Mr.", "A.", "U.S.", "e.g.", "ok:", "THE.", "x."]
 WORDS = ("the quick brown fox jumps over a lazy dog while many other small words fill out this sentence "
          "nicely and keep going on for some time alpha beta gamma delta epsilon 2024 3.14 e.g. U.S. item "
          "value=3 x-y a/b naïve café Ünïcode state-of-the-art foo_bar 100% $5 @you semi; colon: (paren) "
-         "verylongwordthatgoesonandon x").split(" ") + ["20\u202fkm", "a\u00a0b"]  # narrow / no-break spaces inside a word (at word edges: own sub-workload in C02)
+         "verylongwordthatgoesonandon x").split(" ") + ["20\u202fkm", "a\u00a0b"] + ["b}}", "100%}", "-->", "see#}"]  # closers that close nothing  # narrow / no-break spaces inside a word (at word edges: own sub-workload in C02)
 CJK = ["中文", "日本語", "汉字abc", "abc汉字"]
 TYPO = ['"quoted"', "'single'", "it's", "don't", "James'", "wait...", "...so", "and...then", '"two', 'words"',
         "x=\"v\"", "'tis", "rock'n'roll", '("paren")', "end...\"", "—\"dash\"", "hmm....", "a . . . b", "..",
@@ -105,7 +105,8 @@ class Doc:
 
 
 def _is_tagword(w: str) -> bool:
-    return w.startswith(("{%", "{{", "{#", "<!--")) or w.endswith(("%}", "}}", "#}", "-->"))
+    # (a closing delimiter that closes nothing -- 'b}}', '100%}', '-->' -- is an ordinary word)
+    return w.startswith(("{%", "{{", "{#", "<!--")) or (w.endswith(("%}", "}}", "#}", "-->")) and any(o in w for o in ("{%", "{{", "{#", "<!--")))
 
 
 _BLOCKSTART = ("-", "+", "*", ">", "#", "=", "`", "~", "|", "_", "<", ":", "[", "\\", "&")
